@@ -64,7 +64,25 @@ theorem aw_readShortBytes (hA : 1 ≤ A) : AllocW 2 A B readShortBytes := by
   unfold readShortBytes
   exact aw_bindL hA (aw_readShort hA) (fun n => aw_readRaw hA n)
 
-theorem aw_readUuid (hA : 1 ≤ A) : AllocW 0 A B readUuid := aw_readRaw hA 16
+theorem takeN_length (n : Nat) (k : String) (s : St) (raw : Bytes) (s' : St) (h : takeN n k s = (.ok raw, s')) :
+    raw.length = n ∧ n ≤ s.buf.length ∧ s'.buf = s.buf.drop n ∧ s'.alloc = s.alloc ∧ s'.depth = s.depth := by
+  unfold takeN at h
+  split at h
+  · simp at h
+  · injection h with h1 h2
+    injection h1 with h1
+    subst h1; subst h2
+    refine ⟨?_, by omega, rfl, rfl, rfl⟩
+    simp only [List.length_take]; omega
+
+/-- `read_uuid`: the `try_into().unwrap()` is guarded by `read_raw_bytes(16)`. -/
+theorem aw_readUuid (hA : 1 ≤ A) : AllocW 0 A B readUuid := by
+  unfold readUuid
+  have := aw_bindP (w1 := 0) (w2 := 0) (A := A) (B := B) (fun raw : Bytes => raw.length = 16) hA (aw_readRaw hA 16)
+    (fun s a s' h => (takeN_length 16 "few" s a s' h).1)
+    (f := fun raw => if raw.length = 16 then pure raw else panicAt "read_uuid: try_into().unwrap()")
+    (fun raw hr => by simp only [hr, if_true]; exact aw_pure raw)
+  simpa using this
 
 theorem aw_readInet (hA : 1 ≤ A) : AllocW 1 A B readInet := by
   unfold readInet
@@ -152,7 +170,7 @@ theorem aw_zero {m : M α} (h : AllocW w A B m) : AllocW 0 A B m :=
   aw_mono h (Nat.zero_le _) (Nat.le_refl _) (Nat.le_refl _)
 
 theorem aw_remaining : AllocW 0 A B remaining := by
-  intro s; simp only [remaining]; omega
+  intro s; simp only [remaining]; exact ⟨by omega, by omega, by omega, List.suffix_refl _⟩
 
 /-- Walks through a `do` block whose pieces are readers with known accounting (all at surplus 0). -/
 macro "aw0" : tactic => `(tactic| repeat (first
@@ -219,7 +237,63 @@ theorem aw_condRead {m : M α} (c : Bool) (d : α) (h : AllocW 0 A B m) : AllocW
   · exact aw_pure _
 
 theorem aw_takeRest : AllocW 0 A B takeRest := by
-  intro s; simp only [takeRest, List.length_nil]; omega
+  intro s; simp only [takeRest, List.length_nil]; exact ⟨by omega, by omega, by omega, List.nil_suffix⟩
+
+/-- `tracked m` behaves like `m`, and the flag it returns is always `true`: what a reader leaves is a suffix. -/
+theorem aw_tracked {m : M α} (h : AllocW w A B m) : AllocW w A B (tracked m) := by
+  intro s
+  have := h s
+  unfold tracked
+  cases hms : m s with
+  | mk o s1 => rw [hms] at this; cases o <;> simpa using this
+
+theorem tracked_true {m : M α} (h : AllocW w A B m) (s : St) (r : α × Bool) (s' : St)
+    (e : tracked m s = (.ok r, s')) : r.2 = true := by
+  have := h s
+  unfold tracked at e
+  cases hms : m s with
+  | mk o s1 =>
+    rw [hms] at this e
+    cases o with
+    | ok a =>
+      simp only at this e
+      injection e with e1 e2
+      injection e1 with e1
+      subst e1
+      simp only [List.isSuffixOf_iff_suffix]
+      exact this.2.2.2
+    | err k => simp at e
+    | panic k => simp at e
+
+/-- `tracked m >>= fun r => … sliceRef r.2 …`: the continuation may assume the flag. -/
+theorem aw_trackedBind {m : M α} {f : α × Bool → M β} (hA : 1 ≤ A) (hm : AllocW w1 A B m)
+    (hf : ∀ r, r.2 = true → AllocW w2 A B (f r)) : AllocW (w1 + w2) A B (tracked m >>= f) :=
+  aw_bindP (fun r => r.2 = true) hA (aw_tracked hm) (fun s r s' e => tracked_true hm s r s' e) hf
+
+theorem aw_sliceRef_true : AllocW 0 A B (sliceRef true) := by
+  unfold sliceRef; simp only [if_true]; exact aw_pure ()
+
+/-- The `body_len - buf_len` / `advance` pattern never panics: the copy only shrinks, and by no more than the body. -/
+theorem aw_readThenAdvance {m : M α} (h : AllocW w A B m) : AllocW w A B (readThenAdvance m) := by
+  intro s
+  have hm := h s
+  unfold readThenAdvance
+  simp only [bind_def, remaining, onCopy]
+  cases hms : m s with
+  | mk o s1 =>
+    rw [hms] at hm
+    cases o with
+    | err k => simpa using hm
+    | panic k => exact hm.elim
+    | ok a =>
+      simp only at hm ⊢
+      have hle : ¬ (s1.buf.length > s.buf.length) := by omega
+      simp only [hle, if_false, bind_def, advance, pure_def]
+      have hle2 : ¬ (s.buf.length - s1.buf.length > s.buf.length) := by omega
+      simp only [hle2, if_false, List.length_drop]
+      exact ⟨by omega, by omega, hm.2.2.1, List.drop_suffix _ _⟩
+
+
 
 theorem aw_tableSpecFor (hA : 1 ≤ A) (gts : Option (Bytes × Bytes)) : AllocW 0 A B (tableSpecFor gts) := by
   unfold tableSpecFor
@@ -295,8 +369,13 @@ theorem aw2_metaFor (r : RawRows) (cached : Option ResultMeta) : AW 0 (metaFor r
   split
   · exact aw_pure _
   · exact aw_pure _
-  · exact aw_tag _ (aw_bind0 hA (aw_optRead hA _ (aw_tag _ (aw_zero (aw_readShortBytes hA)))) (fun _ =>
-      aw_bind0 hA (aw2_optTableSpec _) (fun gts => aw_bind0 hA (aw2_colSpecs gts _) (fun _ => aw_pure _))))
+  · have hm := aw_tag (w := 0) (A := 2) (B := U16 + U16) "meta"
+      (aw_bind0 hA (aw_optRead hA _ (aw_tag _ (aw_zero (aw_readShortBytes hA)))) (fun _ =>
+      aw_bind0 hA (aw2_optTableSpec r.globalSpec) (fun gts => aw_bind0 hA (aw2_colSpecs gts r.colCount)
+        (fun cols => aw_pure (MetaSource.parsed, (⟨_, r.colCount, cols⟩ : ResultMeta))))))
+    have := aw_trackedBind (w2 := 0) hA hm (f := fun sm => sliceRef sm.2 >>= fun _ => (pure sm.1 : M _))
+      (fun sm h => by rw [h]; exact aw_bind0 hA aw_sliceRef_true (fun _ => aw_pure _))
+    simpa using this
 
 theorem aw2_deserMetadata (r : RawRows) (cached : Option ResultMeta) : AW 0 (deserMetadata r cached) := by
   have hA : 1 ≤ 2 := by omega
@@ -343,6 +422,7 @@ theorem aw2_args {k : List Bytes → M β} (t1 t2 : String) (hk : ∀ l, AW 0 (k
       cases o with
       | ok n => simp only at h; injection h with h1 h2; injection h1 with h1; subst h1; exact readShort_le s _ _ hr
       | err e => simp at h
+      | panic e => simp at h
   · intro n hn s
     have hl := aw_loopN (A := 2) (B := U16) hA (aw_mono (w' := 1) (aw_readString hA) (by omega) (Nat.le_refl _)
       (Nat.le_refl _)) n { s with alloc := s.alloc + n }
@@ -352,6 +432,7 @@ theorem aw2_args {k : List Bytes → M β} (t1 t2 : String) (hk : ∀ l, AW 0 (k
       rw [hls] at hl
       cases o with
       | err e => simp only at hl ⊢; unfold U16 at *; omega
+      | panic e => exact hl.elim
       | ok l =>
         simp only [Nat.mul_one] at hl ⊢
         have h2 := hk l s1
@@ -359,7 +440,8 @@ theorem aw2_args {k : List Bytes → M β} (t1 t2 : String) (hk : ∀ l, AW 0 (k
         | mk o2 s2 =>
           rw [hks] at h2
           cases o2 with
-          | ok b => simp only at h2 ⊢; omega
+          | panic e => exact h2.elim
+          | ok b => simp only at h2 ⊢; exact ⟨by omega, by omega, by omega, h2.2.2.2.trans hl.2.2.2⟩
           | err e =>
             simp only at h2 ⊢
             have := mul_split 2 s.buf.length s1.buf.length hl.2.1 hA
